@@ -6,6 +6,7 @@ package bfe_server
 import (
 	"bytes"
 	"fmt"
+	"net/url"
 	"sort"
 	"strings"
 	"time"
@@ -66,6 +67,10 @@ type reqPlan struct {
 	Chunked  bool
 	Attempts []attemptPlan
 	Raw      []byte // bytes the client sends
+	// retry settings of the request's cluster in force when the request was sent
+	// (a reload between two requests may change them)
+	RetryMax, CrossRetry, RetryLevel int
+	Bad                              bool // BFE must refuse it by itself (4xx, connection closed)
 }
 
 // attemptRec is what the scripted backend side observed for one attempt.
@@ -117,7 +122,7 @@ type eng struct {
 	lsn      []*simnet.Listener
 	tasks    []*simrt.Task
 	faults   bool
-	pending  map[string]*attemptRec // fresh dial per backend addr awaiting its request
+	pending  map[string]*attemptRec // fresh dial (by the dialing side's address) awaiting its request
 	filt     *filters
 	peerAddr []string       // socket peer address per client conn (C29)
 	seenAddr map[int]string // req.ClientAddr observed by a generated filter, per request id
@@ -139,7 +144,7 @@ func (e *eng) genConf(nconn int) *nconf {
 	for ci := 0; ci < nconn; ci++ {
 		name := fmt.Sprintf("cl%d", ci)
 		cl := &ncluster{Name: name, Subs: map[string][]*nbackend{}, SubWeights: map[string]int{},
-			RetryMax: tp.Draw(3, "retry_max"), CrossRetry: tp.Draw(2, "cross_retry"), RetryLevel: tp.Draw(2, "retry_level"),
+			RetryMax: tp.Draw(3, "retry_max"), CrossRetry: tp.Draw(3, "cross_retry"), RetryLevel: tp.Draw(2, "retry_level"),
 			MaxIdle: []int{0, 2}[tp.Draw(2, "max_idle")], RespHdrTO: []int{200, 2000}[tp.Draw(2, "resp_hdr_to")], ConnTO: 500,
 			ReadCliTO: 30000, WriteCliTO: 60000, ReadAgain: []int{1000, 30000}[tp.Draw(2, "read_again")], ReqBuf: []int{0, 64, 512}[tp.Draw(3, "req_buf")],
 			ResFlush: []int{-1, -1, 0, 5, 50}[tp.Draw(5, "res_flush")], CancelOnClose: tp.Chance(1, 2, "cancel_on_client_close")}
@@ -350,6 +355,9 @@ func (e *eng) genReq(id, conn int) *reqPlan {
 		ap := attemptPlan{Kind: akRespond}
 		if e.faults && tp.Chance(2, 5, "attempt_fault") {
 			ap.Kind = 1 + tp.Draw(akKinds-1, "attempt_kind")
+		} else if e.faults && e.focus == "C08" && tp.Chance(1, 2, "attempt_connect_fault") {
+			// the retry budget is only used up by a run of failures: more connect-phase ones
+			ap.Kind = []int{akDialRefuse, akDialTimeout}[tp.Draw(2, "attempt_connect_kind")]
 		}
 		ap.Resp = e.genResp(p.Method)
 		ap.Cut = tp.Draw(40, "cut")
@@ -367,6 +375,10 @@ func (e *eng) genReq(id, conn int) *reqPlan {
 		fmt.Fprintf(&b, "%s: %s\r\n", f.Name, f.Value)
 	}
 	if p.Chunked {
+		trailer := e.faults && tp.Chance(1, 3, "req_trailer")
+		if trailer {
+			b.WriteString("Trailer: X-Req-Sum\r\n")
+		}
 		b.WriteString("Transfer-Encoding: chunked\r\n\r\n")
 		left := p.Body
 		for len(left) > 0 {
@@ -374,7 +386,12 @@ func (e *eng) genReq(id, conn int) *reqPlan {
 			fmt.Fprintf(&b, "%x\r\n%s\r\n", k, left[:k])
 			left = left[k:]
 		}
-		b.WriteString("0\r\n\r\n")
+		if trailer {
+			// a trailer section: the request ends with the empty line after it
+			fmt.Fprintf(&b, "0\r\nX-Req-Sum: %d\r\n\r\n", len(p.Body))
+		} else {
+			b.WriteString("0\r\n\r\n")
+		}
 	} else if p.Method == "POST" || p.Method == "PUT" {
 		fmt.Fprintf(&b, "Content-Length: %d\r\n\r\n", len(p.Body))
 		b.Write(p.Body)
@@ -405,6 +422,16 @@ func reqIDOf(target string) int {
 
 // policy: verdict for every dial of the node toward a backend address.
 func (e *eng) policy(d simnet.DialInfo) (simnet.Verdict, time.Duration) {
+	if strings.HasSuffix(d.Task, "backend.check") {
+		// the health checker probing a backend that was taken out: no request attempt
+		if e.tp.Chance(2, 3, "health_probe_ok") {
+			e.s.Note("dial", d.Addr+" (health probe: accepted)")
+			e.s.Probe("health_probe_ok")
+			return simnet.Accept, 0
+		}
+		e.s.Note("dial", d.Addr+" (health probe: refused)")
+		return simnet.Refuse, 0
+	}
 	ci, ok := e.addrConn[d.Addr]
 	if !ok || e.cur[ci] == nil {
 		e.s.Note("dial", d.Addr+" (no request in flight)")
@@ -426,7 +453,7 @@ func (e *eng) policy(d simnet.DialInfo) (simnet.Verdict, time.Duration) {
 	case akDialTimeout:
 		return simnet.Timeout, 0
 	}
-	e.pending[d.Addr] = rec
+	e.pending[d.Local] = rec
 	return simnet.Accept, 0
 }
 
@@ -438,8 +465,9 @@ func (e *eng) acceptLoop(l *simnet.Listener, addr string) func() {
 				return
 			}
 			conn := c.(*simnet.Conn)
-			rec := e.pending[addr]
-			delete(e.pending, addr)
+			from := conn.RemoteAddr().String()
+			rec := e.pending[from]
+			delete(e.pending, from)
 			simrt.GoNamed("backend.conn", addr, func() { e.serveBackendConn(conn, addr, rec) })
 		}
 	}
@@ -624,6 +652,25 @@ func (e *eng) respond(c *simnet.Conn, m *href.Message, ap attemptPlan, rec *atte
 
 // runClient sends its requests one at a time (pipeline=1) or in bursts and
 // collects the response stream.
+// retryConf records the retry settings in force for request p (the i-th of connection ci);
+// in C08 runs the operator may change them between two requests of the connection.
+func (e *eng) retryConf(ci int, p *reqPlan, i int) bool {
+	cl := e.conf.Clusters[minI(ci, len(e.conf.Clusters)-1)]
+	if e.focus == "C08" && e.faults && i > 0 && e.tp.Chance(1, 3, "retry_conf_reload") {
+		cl.RetryMax, cl.CrossRetry, cl.RetryLevel = e.tp.Draw(3, "retry_max"), e.tp.Draw(3, "cross_retry"), e.tp.Draw(2, "retry_level")
+		e.conf.Version++
+		e.conf.writeData(e.n.root)
+		e.s.Note("op", fmt.Sprintf("reload: RetryMax=%d CrossRetry=%d RetryLevel=%d", cl.RetryMax, cl.CrossRetry, cl.RetryLevel))
+		if err := e.n.srv.ServerDataConfReload(url.Values{}); err != nil {
+			e.s.FailK("C08.reload", "reload-of-generated-config-failed", "ServerDataConfReload: %v", err)
+			return false
+		}
+		e.s.Fault("retry_conf_reload")
+	}
+	p.RetryMax, p.CrossRetry, p.RetryLevel = cl.RetryMax, cl.CrossRetry, cl.RetryLevel
+	return true
+}
+
 func (e *eng) runClient(ci int, pipeline int) func() {
 	return func() {
 		cr := e.clients[ci]
@@ -651,6 +698,9 @@ func (e *eng) runClient(ci int, pipeline int) func() {
 		for i := 0; i < len(plans); i += pipeline {
 			batch := plans[i:minI(i+pipeline, len(plans))]
 			for _, p := range batch {
+				if !e.retryConf(ci, p, map[bool]int{true: i, false: 0}[pipeline == 1]) {
+					return
+				}
 				if pipeline == 1 {
 					e.cur[ci] = p
 				}
